@@ -67,6 +67,8 @@ class Effects:
         self.dynamic = dynamic
         self._memo: Dict[int, Dict[str, List[Site]]] = {}
         self._active: Set[int] = set()
+        self._stack: List[int] = []
+        self._cutoffs = 0
         self._prov: Dict[int, Provenance] = {}
         self.unresolved: List[str] = []
         self._ret_memo: Dict[int, Set[str]] = {}
@@ -167,8 +169,14 @@ class Effects:
         if id(fn) in self._memo:
             return self._memo[id(fn)]
         if id(fn) in self._active or depth > self.max_depth:
+            # a cut-off, not a summary: whoever used this answer must not memoise what it derived from it (a summary computed deep inside one traversal would otherwise be
+            # served, incomplete, to a later top-level question).  Direct self-recursion is exempt: the missing part is the summary under construction itself.
+            if not (self._stack and self._stack[-1] == id(fn)):
+                self._cutoffs += 1
             return {}
         self._active.add(id(fn))
+        self._stack.append(id(fn))
+        cut0 = self._cutoffs
         res: Dict[str, List[Site]] = {}
 
         def hit(expr: ast.AST, node: ast.AST, how: str, via: Tuple[str, ...] = (), root=None):
@@ -221,14 +229,29 @@ class Effects:
                     pos = pnames[1:] if (is_method or is_ctor) else pnames
                     if is_method:
                         bound[pnames[0]] = f.value  # type: ignore[union-attr]
+                    surplus: List[ast.AST] = []
                     for i, a in enumerate(n.args):
                         if isinstance(a, ast.Starred):
+                            surplus.append(a.value)
                             break
                         if i < len(pos):
                             bound[pos[i]] = a
+                        else:
+                            surplus.append(a)
                     for k in n.keywords:
                         if k.arg:
                             bound[k.arg] = k.value
+                    va = cfn.args.vararg.arg if cfn.args.vararg else None
+                    if va and va in summ and surplus:
+                        # what the callee does to the elements of its *args tuple it does to every surplus positional argument
+                        seen_roots = set()
+                        for s_ in summ[va]:
+                            rk = (s_.root[:3], id(s_.root[3]))
+                            if rk in seen_roots:
+                                continue
+                            seen_roots.add(rk)
+                            for a in surplus:
+                                hit(a, n, f"call `{norm(n)[:70]}` ({cq} mutates what its `*{va}` holds: {s_.at()} {s_.how})", (cq,) + s_.via, s_.root)
                     for pname, sites in summ.items():
                         if pname in bound:
                             seen_roots = set()
@@ -240,5 +263,7 @@ class Effects:
                                 hit(bound[pname], n, f"call `{norm(n)[:70]}` ({cq} mutates its `{pname}`: {s_.at()} {s_.how})",
                                     (cq,) + s_.via, s_.root)
         self._active.discard(id(fn))
-        self._memo[id(fn)] = res
+        self._stack.pop()
+        if self._cutoffs == cut0 or depth == 0:
+            self._memo[id(fn)] = res
         return res
